@@ -445,10 +445,48 @@ def generated_formulas(tier):
     return sorted(set(out))
 
 
-def h_translate_e2e(formula, L, until=False):
+def _translate_via(entry, formula, until):
+    """The translation through the public entry points: `translate` (plain and
+    with debug=True: repeatable ordering, same meaning), `map_translate` on a
+    container in which another formula occurs twice, and a second `flatten` of
+    the same parsed tree (a tree is only read by `flatten`)."""
+    if entry == 'translate':
+        return past.translate(formula, until=until)
+    if entry == 'debug':
+        return past.translate(formula, until=until, debug=True)
+    if entry == 'map':
+        other = '(-X q)' if formula.strip() != '(-X q)' else '(--X p)'
+        c = [other, formula, other, 'p']
+        dvars, f, init, action, win = past.map_translate(c, until=until)
+        if not (len(f) == len(init) == len(action) == len(c)):
+            raise AssertionError(f'map_translate: {len(c)} formulas in, {len(f)} translated formulas, '
+                                 f'{len(init)} initial conditions, {len(action)} actions out')
+        return dvars, f[1], past.conj(init), past.conj(action), win
+    assert entry == 'reflatten', entry
+    tree = past.parser.parse(formula)
+    tree.flatten(testers=dict(), context='bool', until=until)
+    testers = dict()
+    r = tree.flatten(testers=testers, context='bool', until=until)
+    init = past.conj(d['init'] for d in testers.values())
+    trans = past.conj(d['trans'] for d in testers.values())
+    dvars = {k: dict(type=d['type'], dom=d.get('dom'), owner='sys') for k, d in testers.items()}
+    return dvars, r, init, trans, [d['win'] for d in testers.values() if d['win'] is not None]
+
+
+ENTRIES = ('translate', 'debug', 'map', 'reflatten')
+
+
+def h_translate_e2e(formula, L, until=False, entry='translate'):
     def run_():
         import itertools
-        dvars, r, init, trans, win = past.translate(formula, until=until)
+        try:
+            dvars, r, init, trans, win = _translate_via(entry, formula, until)
+        except AssertionError as e:
+            return dict(records=[], stats=dict(), functions={
+                'omega.logic.past.translate': dict(source_lines=0, cut={}, dropped='run natively: bounded', stubs=[])},
+                bounded=dict(evaluations=1, formula=formula, failures=[dict(
+                    name=f'translation of "{formula}" through entry point `{entry}` returns one translated formula, initial condition and action per given formula',
+                    error=repr(e)[:300])]))
         names = ['p', 'q'] + list(dvars)
         vals = {nm: [z3.Bool(f'{nm}@{i}') for i in range(L + 3)]
                 for nm in names}
@@ -481,7 +519,7 @@ def h_translate_e2e(formula, L, until=False):
                     w = {nm: [z3.is_true(model.eval(vals[nm][k], model_completion=True))
                               for k in range(L)] for nm in ('p', 'q')}
                 fails.append(dict(
-                    name=f'translate("{formula}"): translated formula agrees with the anchored semantics at position {i}',
+                    name=f'translate("{formula}"): translated formula agrees with the anchored semantics at position {i}' + (f' [entry point: {entry}]' if entry != 'translate' else ''),
                     status=st, trace=w))
         # a solution exists for every input trace
         n_eval += 1
@@ -491,7 +529,7 @@ def h_translate_e2e(formula, L, until=False):
             if (aux + last) else z3.And(*facts)
         st, _, _, _ = eng.check_sat([z3.Not(ex)])
         if st != 'unsat':
-            fails.append(dict(name=f'translate("{formula}"): testers have a solution on every trace', status=st))
+            fails.append(dict(name=f'translate("{formula}"): testers have a solution on every trace' + (f' [entry point: {entry}]' if entry != 'translate' else ''), status=st))
         return dict(records=[], stats=dict(), functions={
             'omega.logic.past.translate': dict(source_lines=0, cut={}, dropped='run natively, whole pipeline incl. PLY parser: bounded in trace length', stubs=[])},
             bounded=dict(evaluations=n_eval, trace_length=L, formula=formula,
@@ -559,6 +597,44 @@ def h_translate_mixed(formula, L):
         return dict(records=[], stats=dict(), functions={
             'omega.logic.past.translate': dict(source_lines=0, cut={}, dropped='run natively, whole pipeline: bounded in trace length', stubs=[])},
             bounded=dict(evaluations=n_eval, trace_length=L, formula=formula, past_testers=pastv, until_testers=sorted(future), failures=fails))
+    return run_
+
+
+def h_debug_same(formula, until):
+    """`debug=True` only fixes the order of the conjuncts: same added variables,
+    same translated formula, equivalent initial condition and transition
+    relation, same recurrence goals."""
+    def run_():
+        from ovc import engine as eng
+        a = past.translate(formula, until=until)
+        b = past.translate(formula, until=until, debug=True)
+        fails = list()
+        names = sorted(set(['p', 'q']) | set(a[0]) | set(b[0]))
+        vals = {nm: [z3.Bool(f'{nm}@{i}') for i in range(3)] for nm in names}
+
+        class F:
+            def __init__(self, nm):
+                self.nm = nm
+
+            def __call__(self, n):
+                return vals[self.nm][z3.simplify(n).as_long()]
+        den = traces.TraceDen({nm: F(nm) for nm in names})
+        same = (sorted(a[0]) == sorted(b[0]) and a[1] == b[1] and sorted(map(str, a[4])) == sorted(map(str, b[4])))
+        why = None
+        if not same:
+            why = 'added variables, translated formula or recurrence goals differ'
+        else:
+            for what, k in (('initial condition', 2), ('transition relation', 3)):
+                st, _, _, _ = eng.check_sat([den.at(a[k], z3.IntVal(0)) != den.at(b[k], z3.IntVal(0))])
+                if st != 'unsat':
+                    why = f'{what} not equivalent ({st})'
+                    break
+        if why:
+            fails.append(dict(name=f'translate("{formula}", until={until}): debug=True changes only the order of the conjuncts',
+                              difference=why, plain=str(a[1:4])[:300], debug=str(b[1:4])[:300]))
+        return dict(records=[], stats=dict(), functions={
+            'omega.logic.past.translate': dict(source_lines=0, cut={}, dropped='run natively: bounded', stubs=[])},
+            bounded=dict(evaluations=1, formula=formula, failures=fails))
     return run_
 
 
